@@ -37,6 +37,15 @@ pub mod strs {
         #[verifier::external_body] pub fn strip_prefix(&self, p: &str) -> (r: Option<Str>) ensures r == sp_strip_prefix(*self, p@) { unimplemented!() }
         #[verifier::external_body] pub fn is(&self, lit: &str) -> (r: bool) ensures r == sp_is(*self, lit@) { unimplemented!() }
     }
+    /// `s == "literal"` (PartialEq<&str> for str): its std meaning, named `sp_is`.
+    impl vstd::std_specs::cmp::PartialEqSpecImpl<&'static str> for Str {
+        open spec fn obeys_eq_spec() -> bool { true }
+        open spec fn eq_spec(&self, o: &&'static str) -> bool { sp_is(*self, (*o)@) }
+    }
+    impl PartialEq<&'static str> for Str {
+        #[verifier::external_body]
+        fn eq(&self, o: &&'static str) -> (r: bool) { unimplemented!() }
+    }
     pub struct ParseIntError;
     /// `u64::from_str` (rule R20).
     #[verifier::external_body] pub fn u64_from_str(s: Str) -> (r: Result<u64, ParseIntError>) ensures r.is_ok() == sp_u64(s).is_some(), r matches Ok(v) ==> v == sp_u64(s).unwrap() { unimplemented!() }
